@@ -182,13 +182,21 @@ def loss_at_every_cut(tier, seed):
     if tier == 'quick' and len(cases) > 400:
         rnd.shuffle(cases)
         cases = cases[:400]
+    work = [(before, cut, down, per) for before, cut, down in cases for per in (25, 1)]
+    if len(work) > 2000:
+        # the cases are independent (each builds its own world): 14 processes
+        import multiprocessing as mp
+
+        with mp.get_context('fork').Pool(14) as pool:
+            results = pool.starmap(one_case, work, chunksize=64)
+    else:
+        results = [one_case(*w) for w in work]
+    for w, f in zip(work, results):
+        evals += 1
+        distinct.add(w)
+        if f:
+            fails.append(f)
     for before, cut, down in cases:
-        for per_iteration in (25, 1):
-            evals += 1
-            distinct.add((before, cut, down, per_iteration))
-            f = one_case(before, cut, down, per_iteration)
-            if f:
-                fails.append(f)
         if len(samples) < 3 and len(before) == 2 and down:
             samples.append({'before': [list(o) for o in before], 'cut_after_messages': cut, 'while_down': [list(o) for o in down]})
     fails.sort(key=lambda f: len(str(f['input'])))
